@@ -2,6 +2,7 @@
 """
 This module provides the Base Section class.
 """
+import operator
 import uuid
 import warnings
 
@@ -599,6 +600,9 @@ class BaseSection(base.Sectionable):
         :param position: index at which the object should be inserted.
         :param obj: Section or Property object.
         """
+        # Refuse a position the list cannot use before anything is moved.
+        position = operator.index(position)
+
         if isinstance(obj, BaseSection):
             if obj.name in self.sections:
                 raise ValueError("odml.Section.insert: "
